@@ -756,6 +756,10 @@ class Evaluator:
             has, val = self.json_field(base, n.slice.value)
             self.may_raise.append((has, 'KeyError', ast.unparse(n)))
             return val
+        if t.k == 'opt' and t.args[0].k == 'map':
+            self.may_raise.append((z3.Not(base.z['none']), 'TypeError', 'subscript on None'))
+            base = SV(t.args[0], base.z['v'])
+            t = base.t
         key = self.ev(n.slice)
         if t.k == 'map':
             k = self.eng.coerce(key, t.args[0])
@@ -928,7 +932,7 @@ class Evaluator:
     def member(self, x: SV, coll: SV):
         if coll.t.k == 'u' and coll.t.name in self.R.json_records and x.t.k == 'str' and z3.is_string_value(x.z):
             return self.json_field(coll, x.z.as_string())[0]
-        if coll.t.k == 'opt' and coll.t.args[0].k in ('set', 'list'):
+        if coll.t.k == 'opt' and coll.t.args[0].k in ('set', 'list', 'map'):
             self.may_raise.append((z3.Not(coll.z['none']), 'TypeError', 'membership test on None'))
             coll = SV(coll.t.args[0], coll.z['v'])
         t = coll.t
@@ -1660,6 +1664,16 @@ class CallEval:
         if key in tests:
             return self.eng.eval_spec_in(self.e.st, tests[key], {'x': v}, heap=self.e.heap)
         raise Unsupported(f'isinstance({v.t}, {cname})')
+
+    def fn_hasattr(self, n):
+        v = self.e.ev(n.args[0])
+        if not (isinstance(n.args[1], ast.Constant) and isinstance(n.args[1].value, str)):
+            raise Unsupported('hasattr with a computed name')
+        key = (v.t.name if v.t.k == 'u' else str(v.t), n.args[1].value)
+        tests = getattr(self.R, 'hasattr_tests', {})
+        if key in tests:
+            return self.eng.eval_spec_in(self.e.st, tests[key], {'x': v}, heap=self.e.heap)
+        raise Unsupported(f'hasattr({v.t}, {n.args[1].value!r})')
 
     def fn_str(self, n):
         return SV(STR, self.ctx.fresh(STR, 'str'))
